@@ -458,12 +458,13 @@ def c15(prop, tier):
     jobs = [Job("sha2-padding", "./std/hash/sha2", ["prelude_sym.go", "c15_sha2.go"], {"PKGNAME": "sha2", "BIGENDIAN": "true", "ENDIAN": "big-endian", "MDPADFN": "padded"}),
             Job("ripemd160-padding", "./std/hash/ripemd160", ["prelude_sym.go", "c15_sha2.go"], {"PKGNAME": "ripemd160", "BIGENDIAN": "false", "ENDIAN": "little-endian", "MDPADFN": "padded"}),
             Job("sha3-padding", "./std/hash/sha3", ["prelude_sym.go", "c15_sha3.go"], {"PKGNAME": "sha3"}),
-            Job("sha2-variable-length", "./std/hash/sha2", ["prelude_sym.go", "c15_sha2_fixedlength.go"], {"PKGNAME": "sha2", "TIERNAME": tier})]
+            Job("sha2-variable-length", "./std/hash/sha2", ["prelude_sym.go", "api_standin.go", "c15_sha2_fixedlength.go"], {"PKGNAME": "sha2", "TIERNAME": tier}),
+            Job("sha3-variable-length", "./std/hash/sha3", ["prelude_sym.go", "api_standin.go", "c15_sha3_fixedwidth.go"], {"PKGNAME": "sha3", "TIERNAME": tier})]
     return run_property(prop, tier, jobs,
-                        title="C15 (padding only): Merkle-Damgard padding of the SHA-2 and RIPEMD-160 gadgets for every message length 0..137 and pad10*1 of the SHA-3/Keccak gadgets for every rate, domain byte and the lengths around the block boundary, with symbolic message bytes; variable-length SHA-256 (FixedLengthSum): the in-circuit padding logic run against a frontend.API stand-in with the meaning of each call (real hints, real math/big), symbolic message bytes, buffer of 120 bytes, lengths at the block boundaries (quick) / every length 0..120 (thorough): the compression calls receive exactly the padded blocks, chained from the seed, and the digest is the state after ceil((L+9)/64) blocks.",
+                        title="C15 (padding only): Merkle-Damgard padding of the SHA-2 and RIPEMD-160 gadgets for every message length 0..137 and pad10*1 of the SHA-3/Keccak gadgets for every rate, domain byte and the lengths around the block boundary, with symbolic message bytes; variable-length SHA-256 (FixedLengthSum): the in-circuit padding logic run against a frontend.API stand-in with the meaning of each call (real hints, real math/big), symbolic message bytes, buffer of 120 bytes, lengths at the block boundaries (quick) / every length 0..120 (thorough): the compression calls receive exactly the padded blocks, chained from the seed, and the digest is the state after ceil((L+9)/64) blocks; variable-length SHA-3 paddingFixedWidth (rates 136/72, domain bytes 0x06/0x01, buffer 150): msg[:L] || pad10*1 exactly and numberOfBlocks = floor(L/rate)+1.",
                         design_ref="DESIGN.md §3 C15",
                         assumptions=["message lengths are enumerated (slice lengths are concrete in the executor); message bytes are symbolic"],
-                        outside=["the compression / permutation functions (tens of thousands of table-lookup constraints over a 254-bit field)", "MiMC, Poseidon2", "SHA-3's variable-length variant (paddingFixedWidth)", "constraint-level soundness of the variable-length padding (the stand-in evaluates the honest computation)", "Merkle and Fiat-Shamir helpers"])
+                        outside=["the compression / permutation functions (tens of thousands of table-lookup constraints over a 254-bit field)", "MiMC, Poseidon2", "SHA-3's absorbingFixedWidth block selection", "constraint-level soundness of the variable-length padding (the stand-in evaluates the honest computation)", "Merkle and Fiat-Shamir helpers"])
 
 
 def c13(prop, tier):
